@@ -20,7 +20,7 @@ from . import common
 from .common import cbool
 
 THEOREMS = [
-    "model_meets_spec", "counts_correct", "reject_iff", "reject_reason_sound",
+    "model_meets_spec", "counts_correct", "reject_iff", "reject_reason_sound", "positional_given",
     "no_reject_when_off", "callback_once_in_order", "call_styles_equal", "request_carries_bound_values",
     "rpc_binds_like_python_partial", "rpc_reject_refuted",
 ]
